@@ -275,6 +275,9 @@ macro_rules! by_mask {
 pub const MAX_POS: usize = 6;
 
 /// Special "masks": a matcher that panics (user code), and a pattern without matcher function.
+/// A hand-written matcher that accepts exactly {0} and, when it rejects, reports the mismatch
+/// through the reporter it is handed - whether or not diagnostics are being collected.
+pub const MASK_REPORTING_MATCHER: u8 = 253;
 pub const MASK_PANICKING_MATCHER: u8 = 254;
 pub const MASK_NO_MATCHER_FN: u8 = 255;
 
@@ -298,6 +301,17 @@ macro_rules! special_or {
             $recv.$entry(&|m| {
                 m.func(|_, _| panic!("{}", USER_PANIC_MATCHER));
             })
+        } else if $mask == MASK_REPORTING_MATCHER {
+            $recv.$entry(&|m| {
+                m.func(|x, reporter| {
+                    if *x == 0 {
+                        true
+                    } else {
+                        reporter.pat_fail(0, Some(format!("{x}")), Some("0"));
+                        false
+                    }
+                });
+            })
         } else {
             $normal
         }
@@ -305,7 +319,7 @@ macro_rules! special_or {
 }
 
 fn start_some<F: UF>(f: F, pos: usize, mask: u8) -> DefineResponse<'static, F, InAnyOrder> {
-    if mask >= MASK_PANICKING_MATCHER {
+    if mask >= MASK_REPORTING_MATCHER {
         return special_or!(f, some_call, mask, unreachable!());
     }
     match pos {
@@ -320,7 +334,7 @@ fn start_some<F: UF>(f: F, pos: usize, mask: u8) -> DefineResponse<'static, F, I
 }
 
 fn start_each<F: UF>(f: F, pos: usize, mask: u8) -> DefineMultipleResponses<'static, F, InAnyOrder> {
-    if mask >= MASK_PANICKING_MATCHER {
+    if mask >= MASK_REPORTING_MATCHER {
         return special_or!(f, each_call, mask, unreachable!());
     }
     match pos {
@@ -335,7 +349,7 @@ fn start_each<F: UF>(f: F, pos: usize, mask: u8) -> DefineMultipleResponses<'sta
 }
 
 fn start_next<F: UF>(f: F, pos: usize, mask: u8) -> DefineResponse<'static, F, InOrder> {
-    if mask >= MASK_PANICKING_MATCHER {
+    if mask >= MASK_REPORTING_MATCHER {
         return special_or!(f, next_call, mask, unreachable!());
     }
     match pos {
@@ -354,7 +368,7 @@ fn start_stub<'e, F: UF>(
     pos: usize,
     mask: u8,
 ) -> DefineMultipleResponses<'e, F, InAnyOrder> {
-    if mask >= MASK_PANICKING_MATCHER {
+    if mask >= MASK_REPORTING_MATCHER {
         return special_or!(each, call, mask, unreachable!());
     }
     match pos {
